@@ -81,7 +81,8 @@ ASSUMPTIONS = [
     "payloads compared to 1e-9 (sympy and numpy round differently in the last "
     "place); the library's == is counted as information only",
     "ZX diagrams are evaluated by the harness's own interpreter (Z/X/H/SWAP/"
-    "scalar); sums are outside this property's quantifier; bubbles are exercised "
+    "scalar); the only formal sum exercised is d + d (lambdified once, called "
+    "at every point, term count and term structure only); bubbles are exercised "
     "only around tensor diagrams and with entrywise polynomials, which "
     "commute with substitution",
     "dagger flags are compared as booleans (None, the self-adjoint marker, "
@@ -1225,6 +1226,8 @@ def one_lambdify(ctx, rng, arm, d, drepr, classes, present, evaluable, mixed,
         reached += one_call(ctx, rng, arm, d, drepr, classes, present,
                             evaluable, mixed, original, info, function, xs,
                             vs, call)
+    if reached and ncalls >= 2:
+        sum_called_again(ctx, arm, d, drepr, xs, values)
     # histories: the SAME diagram object (hence the same box objects) is
     # lambdified once more with its symbols listed in another order, or
     # behind a symbol that does not occur
@@ -1248,6 +1251,40 @@ def one_lambdify(ctx, rng, arm, d, drepr, classes, present, evaluable, mixed,
                      ncalls + 1)
         ctx.count("lambdified-again-in-another-symbol-order")
     return 1 if reached else 0
+
+
+def sum_called_again(ctx, arm, d, drepr, xs, values):
+    """
+    The formal sum d + d lambdified ONCE and called at every point: every call
+    (not only the first) gives a sum with as many terms as substituting gives,
+    each term built like d.lambdify(*xs)(*vs).  Whatever raises here is only
+    counted: raising is the subject of lambdify-returns on d itself.
+    """
+    try:
+        total = d + d
+        function = total.lambdify(*xs)
+        rows = [(function(*vs), d.lambdify(*xs)(*vs),
+                 total.subs(list(zip(xs, vs)))) for vs in values]
+    except Exception as err:
+        ctx.count("sum-lambdify-raised:" + type(err).__name__)
+        return
+    for call, (got, one, sub) in enumerate(rows):
+        terms = getattr(got, "terms", None)
+        wanted = getattr(sub, "terms", None)
+        ok = terms is not None and wanted is not None\
+            and len(terms) == len(wanted) == 2
+        if ok:
+            for term in terms:
+                changes = structural_changes(one, term)
+                ok = ok and changes is not None and not changes\
+                    and safe_repr(term, 4000) == safe_repr(one, 4000)
+        expect(ctx, "lambdify-equals-subs-diagram", ok, failure="sum-terms",
+               op="lambdify", arm=arm, diagram=drepr, call=call,
+               history="d + d lambdified once, called at every point",
+               n_terms=None if terms is None else len(terms),
+               n_terms_substituted=None if wanted is None else len(wanted),
+               lambdified=lambda: safe_repr(got, 400))
+    ctx.count("sums-lambdified-once-and-called-again")
 
 
 def one_call(ctx, rng, arm, d, drepr, classes, present, evaluable, mixed,
